@@ -178,9 +178,12 @@ func (o sOpts) carOpts() []carv2.Option {
 	if o.Ipad > 0 {
 		opts = append(opts, carv2.UseIndexPadding(uint64(o.Ipad)))
 	}
-	if o.Codec == "sorted" {
+	switch o.Codec {
+	case "sorted":
 		opts = append(opts, carv2.UseIndexCodec(multicodec.CarIndexSorted))
-	} else {
+	case "none":
+		opts = append(opts, carv2.WithoutIndex())
+	default:
 		opts = append(opts, carv2.UseIndexCodec(multicodec.CarMultihashIndexSorted))
 	}
 	if o.Zero {
